@@ -213,7 +213,7 @@ def _query(g):
                 outer_bgp_vars = []
         outer_bgp_vars = [v for v in outer_bgp_vars if v != "s"]
     for _ in range(g.randint(0, 3)):
-        k = g.choice(["optional", "optional-filter", "union", "minus", "filter", "bind", "values", "subselect", "group", "group", "bgp2"])
+        k = g.choice(["optional", "optional-filter", "union", "minus", "filter", "bind", "values", "subselect", "group", "group", "bgp2", "empty-group"])
         if k == "optional":
             where.append({"t": "optional", "p": [{"t": "bgp", "triples": [[V(g.choice(["s", "o"])), g.pick(PREDS), V("x")]]}]})
         elif k == "optional-filter":
@@ -229,6 +229,8 @@ def _query(g):
                 where.append({"t": "bind", "var": "bv", "e": g.choice([V("s"), g.pick(OBJS_C), ["iri", "rel"]])})
         elif k == "values":
             where.append({"t": "values", "var": g.choice(["s", "o", "vv"]), "vals": [g.choice(SUBS_C + [None]) for _ in range(g.randint(1, 3))]})
+        elif k == "empty-group":
+            where.append({"t": "group", "p": []})  # { } : the one empty solution, a neutral operand of a join
         elif k == "subselect":
             uses_sub = True
             # the inner variable that is not projected is local to the sub-query, also when the outer pattern uses the same name
